@@ -94,6 +94,17 @@ PROPS = {
         "not_modelled": "the joins that reassemble the DISTINCT groups and the public keys (checked by the oracle: groups and values), float rounding (1e-6), the square root of STDDEV (compared through its square)",
         "assumptions": ["noise factor 0, data inside the declared ranges, no unit above the multiplicity bound (the clipping factor is then 1: C01_clip_inactive)"],
     },
+    "C05": {
+        "model_targets": ["QV/Corr/C05.vo"],
+        "oracle": "the privacy-unit preserving rewriting executed on SQLite: every row carries a non-null unit and weight; for every unit u the rows attributed to u equal (as bags) the rows of the same rewritten query on the database restricted to the protected rows of u",
+        "trusted": [
+            "correspondence: harness/src/dp.rs track_skeleton (reads the operator skeleton off the rewritten relation: tracked = schema carries a _PRIVACY_UNIT_ column; unit equality searched in the ON conjuncts; Map passes the unit column or a COALESCE of unit columns) and QV/Corr/C05.v (skel_ok inside Coq, against the row oracle's verdict and the listed classes)",
+            "SQLite (bundled, rusqlite 0.31) with the shims of harness/src/sqlite.rs as the executor of rendered SQL",
+            "modelled, not verified: PrivacyUnitTracking::{table, map, join, join_left_published, join_right_published, reduce, set}; payload functions, join conditions and aggregates are arbitrary in the model",
+        ],
+        "not_modelled": "the source definition (the joins along the foreign-key path that attach the unit to a protected row: SSrc is a leaf), weights, inner DP aggregations used as published inputs (skipped: they depend on every unit by design)",
+        "assumptions": ["source rows carry a non-null unit that is a function of the row and of the rows it references along the declared path"],
+    },
     "C12": {
         "model_targets": ["QV/Corr/C12.vo"],
         "oracle": "the three laws evaluated on the implementation for random types over boolean/integer/float/text/optional/struct/list x 8 targets: converted value lies in the converted type, distinct values convert to distinct values, every value of a convertible type converts",
